@@ -17,7 +17,8 @@ TECHNIQUE = "solver-enumerated documents in which every raw-carrying construct a
 LEVEL_TEXT = ("For every document of up to K constructs drawn from the raw carriers (HTML block, inline HTML incl. adjacent and nested tags, raw role, raw directive, raw inside eval-rst, hard line "
               "break, strikethrough) and the file readers (include in plain, literal, code and docutils '<...>' form, include inside eval-rst, csv-table :file:, raw :file:), under raw_enabled x "
               "file_insertion_enabled, the final doctree is checked: with raw disabled no raw node and no sentinel payload survives, one warning per removed node, all other marker paragraphs kept "
-              "in order; with file insertion disabled the sentinel file's content is absent, the file was never opened, and each refusal is reported; nothing raises.")
+              "in order; with file insertion disabled the sentinel file's content is absent, the file was never opened, and each refusal is reported; nothing raises. Also with headings between the constructs, "
+              "with the settings spelled 0 instead of False, and under myst_suppress_warnings.")
 LEVEL_NOTE = ("Degenerate (concrete documents after the solver's choices). The file system is real (temporary directory created per run); reads of the sentinel are observed by wrapping "
               "pathlib.Path.read_text / builtins.open / io.open for that path.")
 BUDGET_S = {"quick": 200, "thorough": 1200}
